@@ -605,9 +605,41 @@ func runPair(c *fw.Ctx, k int, pc pairCase) {
 		// still run it (in this isolated worker) to demonstrate the corruption, but report nothing further for this pair
 	}
 	// decode every alphabet datum (in-range and out-of-range) between canaries and guards
-	for di, d := range univ.Datums(fs, true) {
+	// every datum in three legal renderings of its collections: one plain block; one size-prefixed block; one
+	// size-prefixed block per item
+	type rendering struct {
+		d   ref.Datum
+		enc []byte
+	}
+	var rends []rendering
+	for _, d := range univ.Datums(fs, true) {
+		plain := ref.Encode(rs, ref.DRecord(d))
+		rends = append(rends, rendering{d, plain})
+		sized := (&ref.Enc{Policy: func(label string, n int) int {
+			if label == "sizeprefix" {
+				return 1
+			}
+			return 0
+		}}).Encode(nil, rs, ref.DRecord(d))
+		if string(sized) != string(plain) {
+			rends = append(rends, rendering{d, sized})
+			each := (&ref.Enc{Policy: func(label string, n int) int {
+				if label == "sizeprefix" {
+					return 1
+				}
+				if label == "blocksize" {
+					return n - 1
+				}
+				return 0
+			}}).Encode(nil, rs, ref.DRecord(d))
+			if string(each) != string(sized) {
+				rends = append(rends, rendering{d, each})
+			}
+		}
+	}
+	for di, rd := range rends {
 		c.Eval(1)
-		enc := ref.Encode(rs, ref.DRecord(d))
+		d, enc := rd.d, rd.enc
 		arr := reflect.New(reflect.ArrayOf(3, pt)).Elem()
 		for i := 0; i < 3; i++ {
 			fill(arr.Index(i))
@@ -762,7 +794,7 @@ func init() {
 			if tier == "thorough" {
 				p = "8 positions (direct, behind pointer, slice element, map value, slice of maps, nullable pointer, map of slices, pointer to pointer)"
 			}
-			return "the full matrix of 24 schema nodes (null, boolean, int, long, float, double, bytes, string, fixed 0/1/3/4/8/16/17, record, enum, arrays, map, unions with null first/second) × 55 Go types (bool, every signed/unsigned width, uintptr, floats, complex, string, named kinds, byte slices/arrays of every listed length, slices, arrays, maps with string/named/int/array keys, structs, pointers, interface, chan, func, unsafe.Pointer) × " + p + "; oracle: a soundness table written from the documented mapping — an unsound pair must be refused by Schema.Codec; for every pair that builds, every datum of the schema's full alphabet (in-range and out-of-range) is decoded into the middle element of a 3-element array of struct{c0 uint64; F G; c1 uint8; sibling; c2 uint64} and into a pre-sized canary-patterned slice: canaries, sibling, guard elements and trailing slice capacity must be byte-identical, the field must hold the reference value, out-of-range integers must be errors; every byte value 0..255 as a boolean into bool, *bool, []bool, map[string]bool, [null,boolean]→*bool and a named bool: a stored Go bool must hold 0 or 1 (or the decode fails); each pair runs in an isolated worker (a crash is a violation of that pair); non-trivial = a distinct (schema, type, position) triple"
+			return "the full matrix of 24 schema nodes (null, boolean, int, long, float, double, bytes, string, fixed 0/1/3/4/8/16/17, record, enum, arrays, map, unions with null first/second) × 55 Go types (bool, every signed/unsigned width, uintptr, floats, complex, string, named kinds, byte slices/arrays of every listed length, slices, arrays, maps with string/named/int/array keys, structs, pointers, interface, chan, func, unsafe.Pointer) × " + p + "; oracle: a soundness table written from the documented mapping — an unsound pair must be refused by Schema.Codec; for every pair that builds, every datum of the schema's full alphabet (in-range and out-of-range; collections as one plain block, one size-prefixed block and one size-prefixed block per item) is decoded into the middle element of a 3-element array of struct{c0 uint64; F G; c1 uint8; sibling; c2 uint64} and into a pre-sized canary-patterned slice: canaries, sibling, guard elements and trailing slice capacity must be byte-identical, the field must hold the reference value, out-of-range integers must be errors; every byte value 0..255 as a boolean into bool, *bool, []bool, map[string]bool, [null,boolean]→*bool and a named bool: a stored Go bool must hold 0 or 1 (or the decode fails); each pair runs in an isolated worker (a crash is a violation of that pair); non-trivial = a distinct (schema, type, position) triple"
 		},
 		Assumptions: []string{
 			"a sound pair that the library refuses is not a violation (the statement allows failing)",
